@@ -23,7 +23,7 @@ RULE = ("scenario = BLOB length (enumerated from the run index: 0..96, windows a
         "bytes and the 2048-character threshold, then 4Ki/10K/64Ki; thorough: every length 0..3200, 64Ki, 1Mi) x content {random over all "
         "256 byte values, zeros, 0xFF} x format x receivers {library client (Only on the BLOB connection), library client additionally "
         "Also on control, raw peers with policy unset/Never/Also/Only} x direction {download, upload by client API, raw upload} x partial "
-        "BLOB faults x a driver registered after the clients' enableBLOB for it x fragmentation {fixed:1024, fixed:1, random, ...}; distinct = (length, direction set, policies, frag, fault); "
+        "BLOB faults x updates padded to an exact multiple of the read size x a driver registered after the clients' enableBLOB for it x fragmentation {fixed:1024, fixed:1, random, ...}; distinct = (length, direction set, policies, frag, fault); "
         "non-trivial = at least one payload of length >= 1 compared")
 COMPONENTS = c01.COMPONENTS
 ASSUMPTIONS = [
@@ -104,6 +104,10 @@ def generate(seed, tier, index):
         ups.append({"op": "partial_up", "len": max(min(L, 1200), 50), "cut": rng.random()})
     rng.shuffle(ups)
     steps += ups
+    if rng.random() < 0.35 and not big:
+        # the update's length on the wire is made an exact multiple of the 1024-byte read size (by padding the free-text
+        # format attribute), and nothing follows it: the last read of the frame is a full one
+        steps.append({"op": "down_aligned", "len": rng.choice([L, L, 700, 1500, 2300]), "pattern": "random", "mult": rng.choice([1024, 1024, 2048])})
     if rng.random() < 0.3 and not big:
         # a driver that comes up (is hot-plugged) after the clients connected and sent their enableBLOB for it
         steps.append({"op": "late_driver", "len": rng.choice([1, 3, 100, 956, L if L else 2]), "pattern": "random", "format": rng.choice([".fits", ""])})
@@ -114,15 +118,22 @@ def generate(seed, tier, index):
             "seed": rng.randrange(1 << 30)}
 
 
-def _blob_msgs(text):
-    """setBLOBVector elements in a received stream -> list of {el: (bytes, format, size)}"""
+def _blob_msgs(text, strict=True):
+    """setBLOBVector elements in a received stream -> list of {el: (bytes, format, size)}
+    (strict=False: a payload that is not base64 is returned as None instead of raising)"""
     out = []
     els, tail, junk = parse_elements(text)
     for e in els:
         if e.tag == "setBLOBVector":
             d = {}
             for k in e:
-                d[k.attrib.get("name")] = (base64.b64decode(k.text or ""), k.attrib.get("format"), k.attrib.get("size"))
+                try:
+                    raw = base64.b64decode(k.text or "", validate=False)
+                except Exception:
+                    if strict:
+                        raise
+                    raw = None
+                d[k.attrib.get("name")] = (raw, k.attrib.get("format"), k.attrib.get("size"))
             out.append(d)
     return out, tail
 
@@ -321,6 +332,55 @@ def execute(scen):
                     break
                 compared += 1 if L else 0
                 follow(ctx, facts)
+            elif op == "down_aligned":
+                if getattr(node, "blob_conn_cut", False):
+                    continue
+                data = payload(scen["seed"] + 17 * L + 3, L, st["pattern"])
+                facts = {"direction": "download", "len": L, "aligned": True}
+                ct, stt = sim.net.find("cl0.blob")
+                pipe = stt.out  # server -> client, BLOB connection
+                fmt, pad, aligned = ".al", 0, False
+                for attempt in range(4):
+                    fmt = ".al%d" % attempt + "p" * pad
+                    w0 = pipe.written
+                    for pol, p in raws.items():
+                        p.mark = len(p.received)
+                    res = apply_step(stack, {"op": "d_assign", "dev": "CAM", "vec": "IMG", "el": "B0", "value": {"blob_hex": data.hex(), "format": fmt}})
+                    if res.error or res.skipped:
+                        break
+                    sim.settle()
+                    wire = pipe.written - w0
+                    if wire % st["mult"] == 0:
+                        aligned = True
+                        break
+                    pad += (-wire) % st["mult"]
+                ctx = f"download of {L} bytes whose update is {wire} bytes on the wire (a multiple of {st['mult']}: {aligned}), link idle afterwards, frag {net['frag']}"
+                if res.error:
+                    viol.append({"clause": "C08.down", "detail": f"publishing raised {res.error}; {ctx}", "facts": facts})
+                    break
+                if watchdog.S.tripped:
+                    viol.append({"clause": "C08.hang", "detail": f"watchdog {watchdog.S.tripped}; {ctx}", "facts": facts})
+                    break
+                if aligned:
+                    probes["update_length_multiple_of_read_size"] = probes.get("update_length_multiple_of_read_size", 0) + 1
+                d = node.client.get_device("CAM")
+                iv = d.get_vector("IMG") if d else None
+                got = iv.get_element("B0").value if iv else None
+                if got is None or isinstance(got, str) or bytes(got.binary) != data or (got.format or "") != fmt or got.size != L:
+                    viol.append({"clause": "C08.down", "detail": f"library client holds {('%d bytes format %r' % (len(got.binary), got.format)) if got is not None and not isinstance(got, str) else got!r} "
+                                 f"instead of the {L} bytes format {fmt[:12]!r}... just published; {ctx}", "facts": dict(facts, receiver="library")})
+                    break
+                for pol, p in raws.items():
+                    if getattr(p, "cut", False) or pol in ("unset", "Never"):
+                        continue
+                    msgs, tail = _blob_msgs(p.received[p.mark:].decode("latin1"), strict=False)
+                    mine = [m for m in msgs if "B0" in m]
+                    if len(mine) != 1 or mine[0]["B0"][0] != data or (mine[0]["B0"][1] or "") != fmt:
+                        viol.append({"clause": "C08.down", "detail": f"raw peer ({pol}) did not receive the update exactly once and intact; {ctx}", "facts": dict(facts, policy=pol)})
+                        break
+                if not viol:
+                    compared += 1 if L else 0
+                    follow(ctx, facts)
             elif op == "late_driver":
                 from ..gen import drivers as G
                 data = payload(scen["seed"] + 11 * L + 2, L, st["pattern"])
@@ -346,7 +406,7 @@ def execute(scen):
                 for pol, p in raws.items():
                     if getattr(p, "cut", False):
                         continue
-                    msgs, tail = _blob_msgs(p.received[p.mark:].decode("latin1"))
+                    msgs, tail = _blob_msgs(p.received[p.mark:].decode("latin1"), strict=False)
                     if pol in ("unset", "Never"):
                         if msgs:
                             viol.append({"clause": "C08.nopayload", "detail": f"raw peer with policy {pol} received a setBLOBVector; {ctx}", "facts": dict(facts, policy=pol)})
@@ -358,7 +418,7 @@ def execute(scen):
                             break
                         b, f, sz = mine[0]["B0"]
                         if b != data or (f or "") != fmt or sz != str(L):
-                            viol.append({"clause": "C08.down", "detail": f"raw peer ({pol}): payload differs (len {len(b)} vs {L}, format {f!r}, size attr {sz!r}); {ctx}", "facts": dict(facts, policy=pol)})
+                            viol.append({"clause": "C08.down", "detail": f"raw peer ({pol}): payload differs (len {len(b) if b is not None else 'undecodable'} vs {L}, format {f!r}, size attr {sz!r}); {ctx}", "facts": dict(facts, policy=pol)})
                             break
                         compared += 1
                 if not viol:
